@@ -627,6 +627,30 @@ pub(crate) fn check_printers(r: &Runner, st: &mut Stats) -> Option<Failure> {
             return fail("debug.data", *v, format!("Debug shows data {data:?} for ν{v}, it has {want_d:?}"));
         }
     }
+    // the alternate forms {:#?} and {:#}: whatever their layout, every present vertex, every label
+    // and every (non-empty) datum must be in the text
+    if let Ok((a1, a2)) = catch_unwind(AssertUnwindSafe(|| r.g.debug_alt())) {
+        st.evals += 1;
+        for (name, text) in [("{:#?}", &a1), ("{:#}", &a2)] {
+            for v in m.alive() {
+                if !text.contains(&format!("ν{v}")) {
+                    return fail("debug.alternate_form", v, format!("{name} does not mention present vertex ν{v}:\n{text}"));
+                }
+                for (l, _) in &m.get(v).edges {
+                    if !text.contains(&l.text()) {
+                        return fail("debug.alternate_form", v, format!("{name} does not show label {:?} of ν{v}:\n{text}", l.text()));
+                    }
+                }
+                if let Some(d) = m.get(v).data.as_ref().filter(|d| !d.is_empty()) {
+                    if !text.contains(&hexs(d)) {
+                        return fail("debug.alternate_form", v, format!("{name} does not show the data {} of ν{v}:\n{text}", hexs(d)));
+                    }
+                }
+            }
+        }
+    } else {
+        return fail("debug.panic", 0, "{:#?} / {:#} panicked".into());
+    }
     None
 }
 
@@ -899,7 +923,18 @@ impl Engine for DiEngine {
         di_strategy(true)
     }
     fn run(&self, case: &DiCase) -> CaseReport {
-        let (cfg, calls) = build_calls(case, self.prop != "C13");
+        let (cfg, mut calls) = build_calls(case, self.prop != "C13");
+        // one graph in four has shared its place in memory with another graph (which was sliced,
+        // inspected and exported there) right before it is judged; one in four was built next to
+        // foreign activity on the same thread
+        match (case.pred / 5) % 4 {
+            1 => calls.push(Call::Masquerade),
+            2 => {
+                calls.insert(calls.len() / 2, Call::Noise(case.pred));
+                calls.push(Call::Noise(case.pred.wrapping_mul(7).wrapping_add(3)));
+            }
+            _ => {}
+        }
         let conc = DiConcrete { cfg, calls, pred: case.pred, rate: case.rate, variant: case.variant };
         let mut st = Stats::default();
         let (failure, r) = self.check(&conc, &mut st);
